@@ -17,8 +17,32 @@ PT, SI, BM = rs2lean.POWT, rs2lean.SIP, rs2lean.BMACC
 MODS = ["GrinVerif.Props.XlatePmmr", "GrinVerif.Props.XlateCons", "GrinVerif.Props.XlateSeg", "GrinVerif.Props.XlateTx",
         "GrinVerif.Props.XlatePmmr2", "GrinVerif.Props.XlateDiff", "GrinVerif.Props.XlatePow",
         "GrinVerif.Props.XlatePack", "GrinVerif.Props.XlateMisc", "GrinVerif.Props.XlateTxFee",
-        "GrinVerif.Props.XlateSipnode"]
+        "GrinVerif.Props.XlateSipnode",
+        # phase 4 / 5
+        "GrinVerif.Props.XlatePrune", "GrinVerif.Props.XlateVerify", "GrinVerif.Props.XlateVerifyZ",
+        "GrinVerif.Props.XlateVerifyT", "GrinVerif.Props.XlateVerifyD", "GrinVerif.Props.XlateCtx"]
+MODS = [m for m in MODS if os.path.exists("/verif/lean/" + m.replace(".", "/") + ".lean")]
 MODS = [m for m in MODS if m.split(".")[-1] not in os.environ.get("XLATE_MUT_SKIP", "").split(",")]
+PR, CU, CZ, CT, CD, CM, PC, BK = rs2lean.PRUNE, rs2lean.CUCKAROO, rs2lean.CUCKAROOZ, rs2lean.CUCKATOO, rs2lean.CUCKAROOD, \
+    rs2lean.CUCKAROOM, rs2lean.POWC, rs2lean.BLK
+MUTS_P = [   # phase 4 / 5: run with `mutate.py P`
+ ("P01 prune_list: calculate_next_shift 2*((1<<h)-1) -> (1<<h)-1", PR, "\t\tlet shift = if self.is_pruned_root(pos0) {\n\t\t\tlet height = bintree_postorder_height(pos0);\n\t\t\t2 * ((1 << height) - 1)", "\t\tlet shift = if self.is_pruned_root(pos0) {\n\t\t\tlet height = bintree_postorder_height(pos0);\n\t\t\t((1 << height) - 1)"),
+ ("P02 prune_list: append rolls up on !is_pruned(sibling)", PR, "if self.is_pruned(sibling0) {", "if !self.is_pruned(sibling0) {"),
+ ("P03 prune_list: cleanup_subtree rank(lc0) -> rank(lc0 + 1)", PR, "let idx = self.bitmap.rank(lc0);", "let idx = self.bitmap.rank(lc0 + 1);"),
+ ("P04 prune_list: get_shift `idx == 0` early return dropped to `idx == 1`", PR, "\t\tlet idx = self.bitmap.rank(1 + pos0 as u32);\n\t\tif idx == 0 {\n\t\t\treturn 0;\n\t\t}\n\t\tself.shift_cache", "\t\tlet idx = self.bitmap.rank(1 + pos0 as u32);\n\t\tif idx == 1 {\n\t\t\treturn 0;\n\t\t}\n\t\tself.shift_cache"),
+ ("P05 prune_list: is_pruned uses select(rank + 1)", PR, "self.bitmap.select(rank as u32)", "self.bitmap.select(rank as u32 + 1)"),
+ ("P06 cuckaroo: branch test j != i -> j == i", CU, "if j != i {", "if j == i {"),
+ ("P07 cuckaroo: ascending test <= -> <", CU, "nonces[n] <= nonces[n - 1]", "nonces[n] < nonces[n - 1]"),
+ ("P08 cuckaroo: i = j ^ 1 -> i = j", CU, "i = j ^ 1;", "i = j;"),
+ ("P09 cuckaroo: endpoint test xor0 | xor1 -> xor0 & xor1", CU, "if xor0 | xor1 != 0 {", "if xor0 & xor1 != 0 {"),
+ ("P10 cuckarooz: last comparison n == proof_size -> n >= proof_size", CZ, "if n == self.params.proof_size {", "if n >= self.params.proof_size {"),
+ ("P11 cuckarooz: edge too big test > -> >=", CZ, "if nonces[n] > self.params.edge_mask {", "if nonces[n] >= self.params.edge_mask {"),
+ ("P12 CuckooParams::new: edge_mask = num_edges - 1 -> num_edges", PC, "let edge_mask = num_edges - 1;", "let edge_mask = num_edges;"),
+ ("P13 new_cuckarood_ctx: node bits edge_bits - 1 -> edge_bits", CD, "Error> {\n\tlet params = CuckooParams::new(edge_bits, edge_bits - 1, proof_size)?;", "Error> {\n\tlet params = CuckooParams::new(edge_bits, edge_bits, proof_size)?;"),
+ ("P14 verify_kernel_lock_heights: > -> >=", BK, "if lock_height > self.header.height {", "if lock_height >= self.header.height {"),
+ ("P15 verify_nrd_kernels_for_header_version: HeaderVersion(4) -> HeaderVersion(3)", BK, "if self.header.version < HeaderVersion(4) {\n\t\t\t\treturn Err(Error::NRDKernelPreHF3);", "if self.header.version < HeaderVersion(3) {\n\t\t\t\treturn Err(Error::NRDKernelPreHF3);"),
+ ("PB1 benign: locals renamed in cuckaroo verify (uvs -> ends), comment added", CU, None, "cuckaroo_rename"),
+]
 MUTS = [
  ("M01 shift off by one: peak_size >>= 1 -> >>= 2 (peak_map_height)", P, "\t\tpeak_size >>= 1;\n\t}\n\t(peak_map, size)", "\t\tpeak_size >>= 2;\n\t}\n\t(peak_map, size)"),
  ("M02 >= -> > in peak_map_height", P, "\t\tpeak_map <<= 1;\n\t\tif size >= peak_size {", "\t\tpeak_map <<= 1;\n\t\tif size > peak_size {"),
@@ -132,6 +156,8 @@ def thm_at(path, line):
     return best
 
 only = sys.argv[1:]
+if only and all(o.startswith("P") for o in only):
+    MUTS = MUTS_P
 prepare_lean()
 try:
     for name, f, old, new in MUTS:
@@ -139,7 +165,9 @@ try:
         fresh()
         p = os.path.join(SCR, f)
         s = open(p).read()
-        if old is None and new == "siphash_block":
+        if old is None and new == "cuckaroo_rename":
+            s = re.sub(r"\buvs\b", "ends", s).replace("// follow cycle", "// follow the cycle (renamed)")
+        elif old is None and new == "siphash_block":
             a = s.index("pub fn siphash_block("); b = s.index("/// Implements siphash 2-4 specialized")
             body = s[a:b]
             body = re.sub(r"\bnonce_hash\b", "hashes", body); body = re.sub(r"\bi\b", "k", body)
